@@ -132,9 +132,17 @@ def check_prec(prec, cov, what, method):
     if np.linalg.cond(cov) > 1e6:
         return False
     p = cov.shape[0]
-    require(core.close(prec @ cov, np.eye(p), rtol=0, atol=1e-6),
-            '%s: precision @ covariance != I (max dev %.3g)' % (
-                what, core.maxdiff(prec @ cov, np.eye(p))), 'prec-inverse:' + method)
+    if core.close(prec @ cov, np.eye(p), rtol=0, atol=1e-6):
+        return True
+    # channels in very different units: the residual of *any* floating-point inverse can exceed
+    # 1e-6 entry-wise although cond < 1e6 (measured: numpy's own inverse gives 1.1e-6 at cond 2e5
+    # with variances from 1e-12 to 4e3); what is asked is the matrix inverse, so agreement with an
+    # independently computed inverse, relative to its largest entry, is accepted as well
+    ref_inv = np.linalg.inv(cov)
+    require(core.close(prec, ref_inv, rtol=1e-6, atol=1e-9 * float(np.max(np.abs(ref_inv)))),
+            '%s: precision @ covariance != I (max dev %.3g) and the precision differs from the '
+            'inverse of the covariance' % (what, core.maxdiff(prec @ cov, np.eye(p))),
+            'prec-inverse:' + method)
     return True
 
 
